@@ -263,7 +263,7 @@ func (g *G) genC08(p *Plan) {
 			ops = append(ops, op)
 		}
 		if kind == "chunked" {
-			for _, lie := range []string{"badhex", "nosig", "trunc", "trunc1", "declen+", "declen-", "nofinal"} {
+			for _, lie := range []string{"badhex", "nosig", "trunc", "trunc1", "declen+", "declen-", "nofinal", "sig63", "sig65", "sig200"} {
 				op := mk()
 				op.Body = g.body(1 + size)
 				op.ChLie = lie
@@ -418,7 +418,25 @@ func (g *G) genC12(p *Plan) {
 			ops = ops[:60]
 		}
 	}
-	for _, lie := range []string{"badhex", "nosig", "trunc", "trunc1", "declen+", "declen-", "nofinal"} {
+	hugeP := 0.012
+	if g.thorough() {
+		hugeP = 0.04
+	}
+	if g.chance(hugeP) {
+		// "any payload": tens of megabytes, chunk sizes that do not divide
+		// powers of two, short transport reads anywhere
+		size := 1<<25 + g.pick2(1, 4097, 100000, 1<<20+3)
+		if g.thorough() && g.chance(0.3) {
+			size = 1<<26 + g.pick2(1, 70001)
+		}
+		chunks := [][]int{{5000000}, {size + 1}, {1<<20 + 1}, {3333333}, {65536}}[g.rng.Intn(5)]
+		ops = ops[:0]
+		for _, fr := range []string{"halves", "random"} {
+			ops = append(ops, Op{K: "put", B: b, Key: key, Body: g.body(size), Chunks: chunks, Frag: fr})
+		}
+		ops = append(ops, Op{K: "put", B: b, Key: key, Body: g.body(size), Chunks: chunks, Splits: []int{1<<25 - g.n(1, 3000000), 1<<25 - g.n(1, 3000), 1<<25 + g.n(1, 5000)}})
+	}
+	for _, lie := range []string{"badhex", "nosig", "trunc", "trunc1", "declen+", "declen-", "nofinal", "sig8", "sig63", "sig65", "sig200", "sig0"} {
 		if g.chance(0.5) {
 			continue
 		}
